@@ -43,15 +43,22 @@ TRUSTED = [
     "np.arange on integers",
 ]
 PARTIAL = [
-    "estimate_back is proved for integer durations (all div >= 1, all dur); for non-integer floats the tolerance makes the claim false by design",
+    "estimate_back / estimate_total are proved for integer durations (all div >= 1, all dur); for non-integer float "
+    "durations the tolerance makes the claim false by design; estimate_back_composite needs div <= 2^40 (binary64 table)",
+    "measures_tile / numbers_consecutive / measure_lengths are proved for every bar-end map that answers a later "
+    "integer position on integer positions (C11Meas.Integral) and parts satisfying TsOK / ExistingOK (the Reading); "
+    "that the concrete barEnd (C02's beat maps) is such a map when bar lengths are integral is compared, not proved",
+    "tie_notes_sound_same (list level) proves that every walkable tie chain keeps its summed duration and end and every "
+    "note its onset/pitch/voice/staff/id under its key, and that no non-row becomes a row; that no row is lost "
+    "(the following note of a split note keeps a tie_prev) holds by construction but is only compared; the order of "
+    "the rows is compared",
     "tie_notes stage 2 (find_tie_split + split_note) and find_tuplets are unreachable in the current code because "
-    "estimate_symbolic_duration returns {} instead of None (stage2_dead, tuplet_candidates_empty); split_note is "
-    "modelled and proved sound (tie_sound_same) but compared only through a Note subclass whose symbolic_duration "
-    "may be None",
+    "estimate_symbolic_duration returns {} instead of None (theorems stage2_dead, tuplet_candidates_empty); split_note "
+    "is modelled, covered by tie_sound_same/split_sound, and compared through a Note subclass whose symbolic_duration "
+    "may be None (a plain Note always fails split_note's sanity assertion)",
     "fill_rests: oracle only (note array invariant, symbolic durations of the rests it adds); not modelled",
-    "sanitize_part: only the tie check is modelled; removal of incomplete slurs/tuplets/grace notes is outside the generated domain",
-    "measures_tile assumes bar ends computed by an arbitrary progress-making map and ExistingOK; that barEnd (C02 maps) "
-    "makes progress is compared, not proved",
+    "sanitize_part: only the tie check is modelled (sanitize_sound_same: a no-op on lists whose tie links join adjacent "
+    "notes) and compared; removal of incomplete slurs/tuplets/grace notes is outside the generated domain",
 ]
 RULE = ("(a) estimator: every div 1..960 x every integer dur 1..8 div (thorough) or a stratified sample of ~210 durs "
         "per div containing all exact table/composite hits and their +-1 neighbours (quick), plus singles with "
@@ -70,6 +77,7 @@ STEPS = "CDEFGAB"
 DIVS = [1, 2, 3, 4, 5, 6, 7, 8, 10, 12, 16, 24, 48, 96, 480, 960]
 TS_POOL = [(4, 4), (3, 4), (2, 4), (6, 8), (5, 4), (2, 2), (3, 8), (9, 8), (12, 8), (6, 4), (7, 8), (1, 4), (4, 2)]
 ROW = 256
+SEARCH_LIMIT = 8000
 
 
 # ---------------------------------------------------------------------------------------------- tables (oracle side)
@@ -127,21 +135,7 @@ ODD_IDS = ["n0", "n0a", "n0-1", "n0a-1", "x", "a", "z", "note", "N", "n-", "-n",
 
 def cases(rng, tier):
     thorough = tier != "quick"
-    # (a) estimator
-    if thorough:
-        for div in range(1, 961):
-            for lo in range(1, 8 * div + 1, ROW):
-                yield {"k": "estr", "div": div, "lo": lo, "hi": min(lo + ROW, 8 * div + 1)}
-    else:
-        for div in range(1, 961):
-            yield {"k": "estl", "div": div, "com": False, "durs": _strat_durs(rng, div)}
-    for div in [1, 2, 3, 4, 6, 12, 16, 24, 48, 96, 480, 960]:
-        yield {"k": "estl", "div": div, "com": True, "durs": list(range(0, min(8 * div, 400) + 1))}
-    n1 = 3000 if thorough else 300
-    for _ in range(n1):
-        div = rng.choice([rng.randint(1, 960), rng.randint(961, 100000), rng.choice([1024, 4096, 10080, 65536])])
-        dur = rng.choice([rng.randint(0, 8 * div), rng.randint(0, 40 * div)])
-        yield {"k": "estl", "div": div, "com": rng.random() < 0.5, "durs": [dur]}
+    # the estimator sweep comes last: the extended search of the runner takes the first SEARCH_LIMIT cases
     # (b) split search and helpers
     ns = 1500 if thorough else 160
     for _ in range(ns):
@@ -182,6 +176,21 @@ def cases(rng, tier):
         d["k"] = "splitnote"
         d["which"] = rng.randint(0, 50)
         yield d
+    # (a) estimator
+    if thorough:
+        for div in range(1, 961):
+            for lo in range(1, 8 * div + 1, ROW):
+                yield {"k": "estr", "div": div, "lo": lo, "hi": min(lo + ROW, 8 * div + 1)}
+    else:
+        for div in range(1, 961):
+            yield {"k": "estl", "div": div, "com": False, "durs": _strat_durs(rng, div)}
+    for div in [1, 2, 3, 4, 6, 12, 16, 24, 48, 96, 480, 960]:
+        yield {"k": "estl", "div": div, "com": True, "durs": list(range(0, min(8 * div, 400) + 1))}
+    n1 = 3000 if thorough else 300
+    for _ in range(n1):
+        div = rng.choice([rng.randint(1, 960), rng.randint(961, 100000), rng.choice([1024, 4096, 10080, 65536])])
+        dur = rng.choice([rng.randint(0, 8 * div), rng.randint(0, 40 * div)])
+        yield {"k": "estl", "div": div, "com": rng.random() < 0.5, "durs": [dur]}
 
 
 def gen_part(rng):
